@@ -333,6 +333,10 @@ class Decisions:
     def __init__(self):
         self.trace = []   # [ [chosen, [remaining alternatives]] ]
         self.pos = 0
+        self.seq = 0      # merged calls started on the current (sub)path at this level
+
+    def key(self):
+        return (tuple(e[0] for e in self.trace[:self.pos]), self.seq)
 
     def advance(self):
         while self.trace and not self.trace[-1][1]:
@@ -356,6 +360,9 @@ class Ctx:
         self.solver.set('timeout', timeout_ms)
         self.timeout_ms = timeout_ms
         self.dec = Decisions()
+        self.dec_stack = []
+        self.merge_cache = {}
+        self.models_cache = []
         self.pc = []
         self.fresh_n = 0
         self.merge_depth = 0
@@ -376,6 +383,8 @@ class Ctx:
     def explore(self, path_fn, max_paths=None):
         """run path_fn(ctx) once per feasible path"""
         self.dec = Decisions()
+        self.dec_stack = []
+        self.merge_cache = {}
         n = 0
         while True:
             self._begin_path()
@@ -396,9 +405,11 @@ class Ctx:
         self.solver.set('timeout', self.timeout_ms)
         self.pc = []
         self.dec.pos = 0
+        self.dec.seq = 0
         self.fresh_n = 0
         self.events = []
         self.depth = 0
+        self.models_cache = []
 
     def fresh(self, name, sort):
         if self.merge_depth:
@@ -420,6 +431,8 @@ class Ctx:
             return
         self.pc.append(cond)
         self.solver.add(cond)
+        if self.models_cache:
+            self.models_cache = [m for m in self.models_cache if z3.is_true(m.eval(cond, model_completion=True))]
 
     def assume(self, cond):
         """driver-side assumption: abandon the path if it cannot hold"""
@@ -445,7 +458,25 @@ class Ctx:
         if r == z3.unknown:
             self.stats.unknown += 1
             raise Inconclusive('solver returned unknown: %s' % self.solver.reason_unknown())
+        if r == z3.sat and len(self.models_cache) < 12:
+            self.models_cache.append(self.solver.model())
         return r == z3.sat
+
+    def _feasible_both(self, c):
+        t = f = False
+        for m in self.models_cache:
+            v = m.eval(c, model_completion=True)
+            if z3.is_true(v):
+                t = True
+            elif z3.is_false(v):
+                f = True
+            if t and f:
+                return True, True
+        if not t:
+            t = self._check(c)
+        if not f:
+            f = self._check(z3.Not(c))
+        return t, f
 
     def check_sat(self, cond):
         """is pc ∧ cond satisfiable?  returns model or None"""
@@ -477,8 +508,7 @@ class Ctx:
                 self.add(c if v else z3.Not(c))
                 return v
             raise RuntimeError('bad decision')
-        t = self._check(c)
-        f = self._check(z3.Not(c))
+        t, f = self._feasible_both(c)
         if t and f:
             d.trace.append([True, [False]])
             d.pos += 1
@@ -598,18 +628,38 @@ class Ctx:
     def merged_call(self, f, args):
         """explore all paths of a pure scalar-valued call and return one merged term"""
         outer = self.dec
-        replaying = outer.pos < len(outer.trace)
+        ckey = tuple(d.key() for d in self.dec_stack) + (outer.key(), f.name)
+        outer.seq += 1
+        cached = self.merge_cache.get(ckey)
+        if cached is None:
+            cached = self._merged_explore(f, args, outer)
+            if cached is None:
+                return self.exec_fn(f, args)
+            self.merge_cache[ckey] = cached
+        panic_conds, value = cached
+        for cond, p in panic_conds:
+            if self.branch(cond):
+                raise p
+        if value is None:
+            raise PathEnd()
+        return value
+
+    def _merged_explore(self, f, args, outer):
         sub = Decisions()
+        self.dec_stack.append(outer)
         self.dec = sub
         self.merge_depth += 1
         results = []
         base_pc = len(self.pc)
         saved_events = self.events
+        saved_models = self.models_cache
         try:
             while True:
                 sub.pos = 0
+                sub.seq = 0
                 self.solver.push()
                 self.events = []
+                self.models_cache = list(saved_models)
                 try:
                     try:
                         v = self.exec_fn(f, [clone_val(a) for a in args])
@@ -628,28 +678,28 @@ class Ctx:
         except MergeAbort:
             self.no_merge.add(f.name)
             self.dec = outer
+            self.dec_stack.pop()
             self.merge_depth -= 1
             self.events = saved_events
-            return self.exec_fn(f, args)
+            self.models_cache = saved_models
+            return None
         self.dec = outer
+        self.dec_stack.pop()
         self.merge_depth -= 1
         self.events = saved_events
+        self.models_cache = saved_models
         self.stats.merged_calls += 1
-        # panics: fork the outer path on the panic condition
         panic_conds = [(z3.And(*pc) if pc else z3.BoolVal(True), p) for pc, v, p in results if p is not None]
         oks = [(pc, v) for pc, v, p in results if p is None]
-        for cond, p in panic_conds:
-            if self.branch(cond):
-                raise p
         if not oks:
-            raise PathEnd()
+            return panic_conds, None
         if len(oks) == 1:
-            return oks[0][1]
+            return panic_conds, oks[0][1]
         ret = f.ret.strip()
         if ret == 'bool':
             allc = all(isinstance(v, bool) for _, v in oks)
             if allc and len(set(v for _, v in oks)) == 1:
-                return oks[0][1]
+                return panic_conds, oks[0][1]
             terms = []
             for pc, v in oks:
                 if isinstance(v, bool) and not v:
@@ -657,15 +707,18 @@ class Ctx:
                 c = list(pc)
                 if not isinstance(v, bool):
                     c.append(v)
-                terms.append(z3.And(*c) if len(c) != 1 else c[0]) if c else terms.append(z3.BoolVal(True))
+                if not c:
+                    terms.append(z3.BoolVal(True))
+                else:
+                    terms.append(z3.And(*c) if len(c) != 1 else c[0])
             if not terms:
-                return False
-            return z3.simplify(z3.Or(*terms)) if len(terms) > 1 else terms[0]
-        b, s = INT_TYPES[ret]
+                return panic_conds, False
+            return panic_conds, (z3.simplify(z3.Or(*terms)) if len(terms) > 1 else terms[0])
+        b, sg = INT_TYPES[ret]
         acc = oks[-1][1].z()
         for pc, v in reversed(oks[:-1]):
             acc = z3.If(z3.And(*pc) if pc else z3.BoolVal(True), v.z(), acc)
-        return Int(b, s, z3.simplify(acc))
+        return panic_conds, Int(b, sg, z3.simplify(acc))
 
     def exec_fn(self, f, args):
         if f.blocks is None:
